@@ -10,7 +10,7 @@
    _getarglimb, the order of the loop tests of _build_concat). *)
 From PyRTL Require Import Sim.FastModel Sim.FastModelProofs Sim.SimCorrect.
 From PyRTL Require Import Sim.CLimb Sim.CLimbProofs Sim.CLimbMul Sim.CLimbConcat.
-From PyRTL Require Import Sim.CEmitModel Sim.CEmitProofs.
+From PyRTL Require Import Sim.CEmitModel Sim.CEmitProofs Sim.CEmitHash Sim.CEmitHashProofs.
 From PyRTL Require Import Netlist.Sem.
 
 (* ======================= translated fragments ======================================= *)
@@ -226,6 +226,65 @@ Theorem C02_c_refines_spec : forall nl regmap memmap inss,
     (fst (c_run nl (c_init nl 0 regmap memmap) inss)).
 Proof. exact c_refines_spec. Qed.
 Print Assumptions C02_c_refines_spec.
+
+(* ======================= CompiledSimulation: the hash map behind every memory =========== *)
+
+(* Sim/CEmitHash.v transliterates the emitted C helpers (hashmap_t, create_hash_map, hash_code,
+   insert with its in-place update / new head node, lookup with its default array).  For every
+   number of buckets, every key pair -- colliding into one chain or not -- a lookup after an
+   insert finds the inserted limbs for that key and is unchanged for every other key. *)
+Theorem C02_c_hashmap_lookup_insert : forall h key val k', hm_ok h ->
+  hm_find (hm_insert h key val) k'
+  = if key =? k' then Some (firstn (hlimbs h) val) else hm_find h k'.
+Proof. exact hm_find_insert. Qed.
+Print Assumptions C02_c_hashmap_lookup_insert.
+
+Theorem C02_c_hashmap_create : forall size limbs, 0 < size -> HM_R (hm_create size limbs) [].
+Proof. exact HM_R_create. Qed.
+Print Assumptions C02_c_hashmap_create.
+
+(* lookup returns the bound array, else val_limbs zeros (default_value is NOT applied: the
+   sanctioned difference) *)
+Theorem C02_c_hashmap_lookup : forall h l key, HM_R h l ->
+  hm_lookup h key = match lassoc l key with Some v => v | None => repeat 0 (hlimbs h) end.
+Proof. exact HM_R_lookup. Qed.
+Print Assumptions C02_c_hashmap_lookup.
+
+(* every history of inserts (initialize_mems(), then the enabled writes of every cycle): the
+   hash map keeps representing the finite map Sim/CEmitModel.v computes with *)
+Theorem C02_c_hashmap_refines_map : forall limbs (ops : list (Z * list Z)) h l,
+  HM_R h l -> hlimbs h = limbs ->
+  let h' := fold_left (fun h kv => hm_insert h (fst kv) (snd kv)) ops h in
+  let l' := fold_left (fun l kv => (fst kv, firstn limbs (snd kv)) :: l) ops l in
+  HM_R h' l' /\ hlimbs h' = limbs.
+Proof. exact hm_history_refines. Qed.
+Print Assumptions C02_c_hashmap_refines_map.
+
+(* bridge to the definitions C02_c_step_refines_spec is about: the program's `lookup(mem, addr[0])`
+   and `if (enable[0]) insert(mem, addr[0], data)` on hash maps are c_lookup / c_insert *)
+Theorem C02_c_lookup_on_hashmap : forall nl hs mv m a mm,
+  HMems nl hs mv -> find_mem (mems nl) m = Some mm -> mrom mm = None ->
+  hm_lookup (hs m) a = c_lookup nl mv m a.
+Proof. exact hm_lookup_is_c_lookup. Qed.
+Print Assumptions C02_c_lookup_on_hashmap.
+
+Theorem C02_c_insert_on_hashmap : forall nl hs mv cv n m,
+  HMems nl hs mv -> nop n = OpMemWr m ->
+  (nlimbs (mem_dataw nl m) <= length (cv (arg n 1)))%nat ->
+  HMems nl (if rd (cv (arg n 2)) 0 =? 0 then hs
+            else upd hs m (hm_insert (hs m) (rd (cv (arg n 0)) 0) (cv (arg n 1))))
+        (c_insert nl cv mv n).
+Proof. exact hm_insert_is_c_insert. Qed.
+Print Assumptions C02_c_insert_on_hashmap.
+
+(* the helper text is the audited one; 256 buckets; keys 1, 257, 513 share a chain *)
+Example C02_hashmap_as_modelled : c_hashmap_helpers_audited = true /\ 0 < c_hash_buckets.
+Proof. split; reflexivity. Qed.
+
+Example C02_hashmap_collisions :
+  hm_replay 2 [(1, [5; 6]); (257, [7; 8]); (513, [9; 1; 4]); (257, [2; 2])] [1; 257; 513; 769]
+  = [[5; 6]; [2; 2]; [9; 1]; [0; 0]].
+Proof. vm_compute. reflexivity. Qed.
 
 (* ======================= non-vacuity =================================================== *)
 
